@@ -16,7 +16,8 @@
    exclusion ([c02_reader_refines_flat]); [c02_reader_refines_flat_either] is the common proof,
    for both readers, with the two classes excluded through [ops_ok] when fx = false. *)
 From Coq Require Import List NArith Bool.
-From NV Require Import Bgzf.Vpos Bgzf.VposProofs Bgzf.Gzi Bgzf.ReaderOps Bgzf.FlatRef Bgzf.ReaderOpsProofs.
+From NV Require Import Bgzf.Vpos Bgzf.VposProofs Bgzf.Gzi Bgzf.ReaderOps Bgzf.FlatRef Bgzf.ReaderOpsProofs
+  Bgzf.ReaderTellProofs.
 Import ListNotations.
 Open Scope N_scope.
 
@@ -33,9 +34,10 @@ Print Assumptions vpos_order.
 (* For EVERY well-formed frame list f (any number of frames, empty frames anywhere, with or
    without trailing empty frame, every frame 1 <= csize, data <= 65536 bytes, file shorter than
    2^48) and EVERY history of reader calls {read n, read_exact n, std read_exact n, fill_buf,
-   consume n, seek v, seek by uncompressed offset} whose seeks name byte boundaries: the flat
-   reference accepts the history, every call returns what the flat reference returns, and after
-   every call virtual_position() is Ok v with denote f v = the flat offset. *)
+   consume n, seek v, seek by uncompressed offset, read-to-end with an n-byte buffer} whose seeks
+   name byte boundaries: the flat reference accepts the history, every call returns what the flat
+   reference returns (for read-to-end the reference IS the closed form: all of D from the current
+   offset on), and after every call virtual_position() is Ok v with denote f v = the flat offset. *)
 Theorem c02_reader_refines_flat : forall f ops,
   wf f -> total_csize f <= MAX_COMPRESSED_POSITION -> ops_valid f ops ->
   exists fl, frun f (mkF 0 0) ops = Some fl /\
@@ -81,31 +83,65 @@ Theorem c02_gzi : forall f p, wf f -> total_csize f <= MAX_COMPRESSED_POSITION -
 Proof. exact gzi_lands. Qed.
 Print Assumptions c02_gzi.
 
-(* positions told during sequential reading never go backwards in the stream (partial: stated on
-   the denoted flat offsets; the numeric statement v1 <= v2 is checked on the implementation
-   for every non-seek step but not proved here) *)
-Definition c02_tell_monotone_full_statement : Prop := forall f ops st o v1 v2,
-  wf f -> ops_valid f (ops ++ [o]) -> is_seek o = false ->
+(* Positions told during sequential reading never decrease AS NUMBERS (u64 order = Ord on
+   VirtualPosition by vpos_order): for any valid history (seeks allowed) followed by one call
+   that is not a seek, the position reported before that call is <= the one reported after it. *)
+Theorem c02_tell_monotone : forall f ops o st v1 v2,
+  wf f -> total_csize f <= MAX_COMPRESSED_POSITION -> ops_valid f (ops ++ [o]) -> is_seek o = false ->
   st = run_state true f (gzi_of f) (init f) ops ->
   virtual_position st = Ok v1 ->
   virtual_position (fst (step true f (gzi_of f) st o)) = Ok v2 -> v1 <= v2.
+Proof. exact tell_monotone. Qed.
+Print Assumptions c02_tell_monotone.
 
-Theorem c02_tell_monotone_partial : forall f ops,
+(* ... and both positions are defined (virtual_position() does not panic) *)
+Theorem c02_tell_monotone_defined : forall f ops o,
+  wf f -> total_csize f <= MAX_COMPRESSED_POSITION -> ops_valid f (ops ++ [o]) -> is_seek o = false ->
+  let st := run_state true f (gzi_of f) (init f) ops in
+  exists v1 v2, virtual_position st = Ok v1 /\
+                virtual_position (fst (step true f (gzi_of f) st o)) = Ok v2 /\ v1 <= v2.
+Proof. exact tell_monotone_defined. Qed.
+Print Assumptions c02_tell_monotone_defined.
+
+(* the same along a whole history without seeks: the list of reported positions is a
+   nondecreasing list of numbers *)
+Theorem c02_tell_monotone_run : forall f ops,
+  wf f -> total_csize f <= MAX_COMPRESSED_POSITION -> ops_valid f ops ->
+  forallb (fun o => negb (is_seek o)) ops = true ->
+  exists vs, map snd (run true f (gzi_of f) (init f) ops) = map Ok vs /\ nondecr 0 vs.
+Proof. exact tell_monotone_run. Qed.
+Print Assumptions c02_tell_monotone_run.
+
+(* the flat offsets the told positions denote never go backwards either *)
+Theorem c02_tell_offsets_monotone : forall f ops,
   wf f -> total_csize f <= MAX_COMPRESSED_POSITION -> ops_valid f ops ->
   forallb (fun o => negb (is_seek o)) ops = true ->
   exists fl, Forall2 (agrees f) (run true f (gzi_of f) (init f) ops) fl /\ nondecr 0 (map snd fl).
 Proof. exact tell_monotone_flat. Qed.
-Print Assumptions c02_tell_monotone_partial.
+Print Assumptions c02_tell_offsets_monotone.
 
-(* after a seek to a position naming flat offset j, a read hands out a prefix of the stream from
-   exactly byte j (partial: stated on the flat reference, which the reader refines by
-   c02_reader_refines_flat; read-to-end as a closed form is not proved) *)
-Theorem c02_seek_then_read_partial : forall f s v j s1 x n,
+(* After ANY valid history, seek v with denote f v = Some i succeeds, and reading to the end with
+   any non-empty buffer (read until a call returns 0 bytes) returns exactly D from byte i on; the
+   position then told denotes the end of the data. *)
+Theorem c02_seek_then_read_to_end : forall f ops v i n,
+  wf f -> total_csize f <= MAX_COMPRESSED_POSITION -> ops_valid f ops ->
+  denote f v = Some i -> 0 < n ->
+  let st := run_state true f (gzi_of f) (init f) ops in
+  let st1 := fst (seek true f st v) in
+  snd (seek true f st v) = Ok v /\
+  snd (read_all true st1 n) = Ok (skipn (N.to_nat i) (concat (chunks f))) /\
+  exists ve, virtual_position (fst (read_all true st1 n)) = Ok ve /\
+             denote f ve = Some (total_dlen f).
+Proof. exact seek_then_read_to_end. Qed.
+Print Assumptions c02_seek_then_read_to_end.
+
+(* a single read after a seek hands out a prefix of the stream from exactly the named byte *)
+Theorem c02_seek_then_read : forall f s v j s1 x n,
   fstep f s (Seek v) = Some (s1, x) -> denote f v = Some j ->
   off s1 = j /\
   exists k, k <= n /\ snd (f_read (chunks f) s1 n) = Ok (slice (concat (chunks f)) j k).
 Proof. exact flat_seek_then_read. Qed.
-Print Assumptions c02_seek_then_read_partial.
+Print Assumptions c02_seek_then_read.
 
 (* non-vacuity: a history with both seek forms, a seek to the end of file, 64 KiB reads at the
    end and a gzi seek satisfies the hypotheses, and this is what it observes *)
@@ -114,6 +150,14 @@ Example c02_example_valid :
   ops_valid wit_file
          [Read 3; Seek (pack 0 5); FillBuf; Seek (pack 61 0); Read 70000; SeekU 2; ReadExact 3; Read 70000].
 Proof. exact example_valid. Qed.
+
+Example c02_example_read_all :
+  run true wit_file (gzi_of wit_file) (init wit_file) [Read 1; Seek (pack 0 2); ReadAll 2; ReadAll 70000]
+  = [ (OBytes (Ok [104]), Ok (pack 0 1));
+      (OPos (Ok (pack 0 2)), Ok (pack 0 2));
+      (OBytes (Ok [108; 108; 111]), Ok (pack 61 0));
+      (OBytes (Ok []), Ok (pack 61 0)) ].
+Proof. vm_compute. reflexivity. Qed.
 
 Example c02_example_run :
   run true wit_file (gzi_of wit_file) (init wit_file)
